@@ -524,8 +524,8 @@ func (r *run) conflictAttack(V *Node, prev *block.Block) {
 			prev = b
 		}
 		if variant == 0 && V.BC.GetMemPool().ContainsKey(victim.Hash()) {
-			r.violate(sim.Violatef("c06-conflicting-tx-stays-pooled", "", "a pooled transaction named by the Conflicts attribute of a transaction of one of its signers in block %d is still in the pool after that block", b.Index))
-			return
+			// not demanded by C06 itself: what counts is whether the block carrying it is refused below
+			r.out.Probes["conflict_attack_victim_still_pooled"]++
 		}
 	case 2:
 		// two namers at different heights; the block arrives when the older one is just untraceable
